@@ -540,10 +540,15 @@ func (t *transpiler) evaluateStringSubscript(subscript parser.StringSubscript, v
 	if err != nil {
 		return expressionResult{}, err
 	}
-	endIndexResult, err := t.evaluateIndex(subscript.EndIndex(), true)
+	endIndexResult := startIndexResult
 
-	if err != nil {
-		return expressionResult{}, err
+	// A single index (s[i]) is start- and end-index at once and is only evaluated once.
+	if subscript.HasEndIndex() {
+		endIndexResult, err = t.evaluateIndex(subscript.EndIndex(), true)
+
+		if err != nil {
+			return expressionResult{}, err
+		}
 	}
 	value := subscript.Value()
 	str, err := t.evaluateExpression(value, true)
